@@ -71,6 +71,29 @@ theorem parse_printWith (extra : Expr → Bool) (e : Expr) (h : framesWith extra
   unfold parse parseWith
   rw [this]; rfl
 
+/-- The depth hypothesis is exact: a print that needs more than `MAX_DEPTH` nested frames is
+    rejected with `TooDeep` (never mis-parsed, never another error). -/
+theorem parse_printWith_too_deep (extra : Expr → Bool) (e : Expr) (h : MAX_DEPTH < framesWith extra e) :
+    ∃ k, parse (printWith extra e) = .error (.tooDeep k) := by
+  obtain ⟨k, hn, f, hf⟩ := TD extra MAX_DEPTH e 0 0 [] (Nat.zero_le _) (Nat.zero_le _) (by omega)
+  rw [List.append_nil] at hf
+  have := at_fuelFor MAX_DEPTH hf hn
+  refine ⟨k, ?_⟩
+  unfold parse parseWith
+  rw [this]; rfl
+
+/-- …so the round trip holds exactly when the print fits the depth limit. -/
+theorem parse_printWith_ok_iff (extra : Expr → Bool) (e : Expr) :
+    parse (printWith extra e) = .ok e ↔ framesWith extra e ≤ MAX_DEPTH := by
+  constructor
+  · intro h
+    apply Nat.le_of_not_lt
+    intro hlt
+    obtain ⟨k, hk⟩ := parse_printWith_too_deep extra e hlt
+    rw [hk] at h
+    cases h
+  · exact parse_printWith extra e
+
 /-- Precedence/associativity correctness: minimal parenthesisation parses back to the tree. -/
 theorem parse_printMin (e : Expr) (h : framesMin e ≤ MAX_DEPTH) : parse (printMin e) = .ok e :=
   parse_printWith _ e h
@@ -150,6 +173,8 @@ theorem too_deep_only_because_of_limit (n k : Nat) :
   rw [← h n]
   exact parseNoLimit_printWith _ _
 
+-- 64 prefix operators need 65 frames: the hypothesis of `parse_printWith_too_deep` is satisfiable
+example : MAX_DEPTH < framesMin (Nat.repeat (Expr.un .neg) 64 (.atom 0)) := by decide
 example : ∀ t ∈ [Tok.lparen, .op .sub, .notKw, .bang, .tilde], isNester t = true := by decide
 -- the boundary is exact: 63 prefix operators parse, 64 do not
 example : (parse (List.replicate 63 (Tok.op .sub) ++ [.atom 0])).isOk = true := by decide
